@@ -320,6 +320,13 @@ func (r *Run) Violation(check string, c any, v Verdict) string {
 	os.WriteFile(path, data, 0o644)
 	r.mu.Lock()
 	r.violations = append(r.violations, violation{Check: check, Message: v.Fail, Replay: path, Sig: v.Sig})
+	r.writeShard(1, false)
+	if strings.Contains(v.Sig, "hang") {
+		// a goroutine of the code under test is stuck or spinning in this process (it cannot be
+		// stopped and may eat CPU and memory without bound): the verdict is on record, stop here
+		fmt.Printf("VIOLATION-DETAIL property=%s check=%s sig=%s: %s\n", r.Property, check, v.Sig, firstLine(v.Fail))
+		os.Exit(1)
+	}
 	r.mu.Unlock()
 	fmt.Printf("VIOLATION-DETAIL property=%s check=%s sig=%s: %s\n", r.Property, check, v.Sig, firstLine(v.Fail))
 	return path
@@ -379,6 +386,11 @@ func Explore[C any](r *Run, t *testing.T, check string, checks int, gen func(*ra
 			r.Record(c, v)
 			if v.Fail != "" {
 				cc := c
+				if last == nil {
+					// the first (unshrunk) failing case is put on record at once: should the process die
+					// or be killed while rapid shrinks it, the verdict is already in the shard file
+					r.Violation(check, c, v)
+				}
 				last, lastV = &cc, v
 				rt.Fatalf("%s", v.Fail)
 			}
@@ -557,12 +569,19 @@ type shardFile struct {
 func (r *Run) Finish(exitCode int) {
 	r.mu.Lock()
 	defer r.mu.Unlock()
+	r.writeShard(exitCode, true)
+}
+
+// writeShard writes the shard file. It is also called (complete=false) right after a violation has been
+// recorded, so that a process that dies or is killed later - a panic on a goroutine of the code under
+// test, a hang that runs into the shard's time limit - still leaves its verdict behind. Caller holds r.mu.
+func (r *Run) writeShard(exitCode int, complete bool) {
 	sf := shardFile{
 		Property: r.Property, Tier: r.Tier, Seed: r.Seed, Shard: r.Shard, Level: r.Level, Rule: r.Rule,
 		Assumptions: r.Assumptions, Evaluations: r.evaluations, Samples: r.samples, Classes: r.classes,
 		Excluded: r.excluded, Exhaustive: r.exhaustive, Extra: r.extra, Violations: r.violations,
 		KnownHit: r.knownHit, KnownText: map[string]string{}, WallS: time.Since(r.start).Seconds(),
-		Complete: true,
+		Complete: complete,
 	}
 	for _, f := range r.findings {
 		if f.Status == "known" {
